@@ -72,6 +72,33 @@ CHECKS["C16"] = dict(
     design_ref="DESIGN.md section 4, C16",
     note="Trusted: derivative automata and the restart construction; AM (bound by C06); patterns the compiler rejects (open-ended ones followed by a strict action) are counted, not judged.")
 
+CHECKS["C01"] = dict(
+    category="model_checking",
+    technique="explicit-state product search: reference interpreter of the procedural reading (our own AST) x abstract machine over the compiled DFA, with a lead buffer for the permitted one-position slack; witness inputs replayed on the C",
+    text="Every program of a bounded universe (all leaf-statement sequences of length <= 2 over the full match/action menus, one block - optional, loop+break, foreach, try/catch with every reason list, case, if - "
+         "with bodies <= 2 and <= 1 statement before/after) is printed from our own AST; each accepted program is explored jointly with the reference interpreter REF to a fixpoint over the source byte classes: "
+         "hook calls with the outputs visible to them, appends, self-referential assignments, yields, finishes, result codes and final outputs must be performed exactly when and as often as the procedural reading "
+         "performs them, modulo exactly the stated slack. This visits every reachable (machine state, data, program point) triple of each program, i.e. decides the property for all inputs of that program.",
+    design_ref="DESIGN.md sections 3.5 and 4 (C01), nv/ref.py, nv/refcheck.py",
+    note="Trusted: REF as the reading of the language reference (spec-open points listed in the evidence assumptions accept a set of behaviours); AM bound to C by C06 plus C replays of the BFS witnesses; "
+         "small scope (depth-1 blocks, menus, 8-bit/short-string data); one open known finding (KF13) is matched structurally.")
+CHECKS["C17"] = dict(
+    category="model_checking",
+    technique="the C01 product search (REF x abstract machine) with end-of-input explored as a symbol from every reachable product state, on programs compiled with EOF support",
+    text="The bounded universe compiled with -feof-support plus an EOF-specific universe (`end` as a statement, in concatenations, in case clauses alone and combined, as optional lookahead, in catch handlers, "
+         "in wait patterns, in loops) is explored jointly with REF; from every reachable product state the end-of-input step is taken on both sides: end() must return DONE iff the program had completed or an `end` "
+         "pattern completes it there (after running the following actions; a finish gives its code), FAIL otherwise; `end` never matches a byte; wildcards / inverted sets never match end-of-input (also C07).",
+    design_ref="DESIGN.md section 4, C17",
+    note="Trusted: as C01. Programs whose emitted end() does not compile are counted and left to C11.")
+CHECKS["C09"] = dict(
+    category="model_checking",
+    technique="exact language-theoretic decision on derivative automata for statement pairs and case clause sets, plus exhaustive search for ambiguity witnesses over all reachable REF x machine states of accepted programs",
+    text="(a) all 196 x 4 pairs `A; B`, `optional {A} B`, `A; optional {B} \"c\"`, loop shapes over a 14-match menu and (b) all case clause sets of C08 are decided exactly: is there an accepting configuration of A and a byte "
+         "that both continues A and starts B; are non-greedy clause languages pairwise disjoint and prefix-free; does every greedy tie have a unique top priority. (c) every accepted universe program is explored "
+         "with REF, which raises a witness at any reachable decision point where one byte has two continuations. Accepted-and-ambiguous is a violation with its witness input.",
+    design_ref="DESIGN.md section 4, C09",
+    note="Trusted: derivative automata; REF's notion of 'starts what follows' (bytes merely skipped by wait / taken only by else do not count); unambiguous-but-rejected is allowed.")
+
 NOT_YET = {
 }
 
